@@ -1150,7 +1150,7 @@ func checkOwnership(c *Ctx) {
 			c.check(!leak, rule, key, pos(in), "on every non-error path the object is stored in a handle (a Request that is in the handle table or closed by its creator) or closed before the function returns", why)
 		})
 	}
-	c.check(n >= 8, "R6", "producer sites", "?", fmt.Sprintf("%d producer sites examined", n), fmt.Sprintf("only %d producer sites found (8 expected): anchors lost", n))
+	c.check(n >= 6, "R6", "producer sites", "?", fmt.Sprintf("%d producer sites examined", n), fmt.Sprintf("only %d producer sites found (at least 6 expected): anchors lost", n))
 }
 
 func recvTypeOf(fn *ssa.Function) types.Type {
